@@ -128,6 +128,11 @@ func (w *Watcher) getGovernanceEventsByTxId(
 		if event.EventIndex != WormholeMessageEventIndex {
 			continue
 		}
+		// The tx-id view lists the events of every contract the transaction touched. Only the governance
+		// contract's own events are messages; another contract can emit a look-alike event with index 0.
+		if event.ContractAddress != address {
+			continue
+		}
 
 		header, err := client.GetBlockHeader(ctx, event.BlockHash)
 		if err != nil {
